@@ -671,7 +671,7 @@ var (
 	bareVals   = []string{"small", "big", "1", "", "v-2"}
 	procs      = []string{"1", "4", "8", "16"}
 	rests      = []string{" 1 ns/op", "\t     100\t  12.5 ns/op", " 1 2 ns/op 3 B/op", "   2000000000\t0.33 ns/op\t  0 allocs/op", " 1 1 ns/op ", " 5 ns/op é", "\t7"}
-	junk       = []string{"PASS", "ok  \tgolang.org/x/perf\t0.1s", "--- BENCH: BenchmarkFoo", "BenchmarkNoSpace", "# comment", "note:nospace", "Upper: x", "   indented: x", "FAIL"}
+	junk       = []string{"PASS", "ok  \tgolang.org/x/perf\t0.1s", "--- BENCH: BenchmarkFoo", "BenchmarkNoSpace", "# comment", "note:nospace", "Upper: x", "   indented: x", "FAIL", ": x", ":", ": ", "=: x", "Benchmark", "key value: x"}
 	seps       = []string{" ", " ", "\t", "  ", " \t"}
 )
 
